@@ -400,6 +400,10 @@ pub enum SigKind {
     HtlcWrongFlag,
     /// last HTLC signature made over a transaction with another contest delay
     HtlcOtherDelay,
+    /// the list of HTLC signatures lacks its last entry (only differs with >= 1 HTLC)
+    HtlcMissingLast,
+    /// the list of HTLC signatures has one entry too many (a copy of the commitment signature)
+    HtlcExtra,
 }
 
 pub const SIG_KINDS: [SigKind; 8] = [
@@ -490,6 +494,10 @@ impl Chan {
                     let l = htlc_sigs.len();
                     htlc_sigs[l - 1] = secp.sign_ecdsa(&Message::from_digest(sh.to_byte_array()), &htlc_key);
                 },
+            SigKind::HtlcMissingLast => {
+                htlc_sigs.pop();
+            }
+            SigKind::HtlcExtra => htlc_sigs.push(commit_sig),
             _ => {}
         }
         let all_valid = self.verify_holder_sigs(secp, n, c, &commit_sig, &htlc_sigs);
@@ -507,7 +515,8 @@ impl Chan {
         let point = self.holder_point(secp, n);
         let htlc_pub = PublicKey::from_secret_key(secp, &derive_private_key(secp, &point, &self.cp.htlc_base));
         let shs = self.htlc_sighashes(&tx, true, self.htlc_sighash_type());
-        if shs.len() != htlc_sigs.len() {
+        // every HTLC needs its signature; surplus entries at the end carry no meaning
+        if htlc_sigs.len() < shs.len() {
             return false;
         }
         for ((_, m), s) in shs.iter().zip(htlc_sigs.iter()) {
